@@ -222,6 +222,30 @@ func verifCollect[K comparable, V any](m *Map[K, V]) []Tuple[K, V] {
 //@     invariant [all] forall i int :: {ps[i]} 0 <= i && i < $idx ==> has(m.index, ps[i].Key)
 //@     decreases len(ps) - $idx
 
+// ---- C19: marshalling observes the map, it never writes it ----
+// Range is inlined, so these frames are proved over Range's real loop; the
+// buffer / the node under construction are locals of the marshaler.
+
+//@ func (*Map).MarshalJSON
+//@   assigns nothing
+//@   loop Range.0
+//@     assigns b, first
+//@     invariant [bounds] 0 <= $idx
+
+//@ func (*Map).MarshalYAML
+//@   assigns nothing
+//@   loop Range.0
+//@     assigns n.Content, n.Content[..]
+//@     invariant [bounds] 0 <= $idx && n != nil && fresh(n) && (loopfresh(n.Content) || arr(n.Content) == atloop(arr(n.Content)))
+
+//@ func AssertValues
+//@   requires m != nil ==> wf(m)
+//@   assigns nothing
+//@   loop Range.0
+//@     assigns msv.index, msv.items, *msv.index, msv.items[..]
+//@     invariant [shape] 0 <= $idx && msv != nil && fresh(msv) && msv != m && wf(msv) && msv.index != nil && fresh(msv.index) && msv.index == atloop(msv.index) &&
+//@         (arr(msv.items) == atloop(arr(msv.items)) || loopfresh(msv.items)) && fresh(msv.items)
+
 // Unmarshal is given its frame only here: it may write anything reachable from
 // dst (stated coarsely as "everything"); functional clauses are added by the
 // properties that need them.
